@@ -208,8 +208,8 @@ Definition inner (A B : tensor F) (n_modes : option nat) : res (tensor F) :=
       let s1 := shape A in let s2 := shape B in
       let common := lastn' n s1 in
       let csize := prod common in
-      (* shape_t1[:-n_modes]: empty for n_modes = 0 *)
-      let out_shape := (if n =? 0 then [] else firstn (length s1 - n) s1) ++ skipn n s2 in
+      (* shape_t1[: len(shape_t1) - n_modes] + shape_t2[n_modes:] *)
+      let out_shape := firstn (length s1 - n) s1 ++ skipn n s2 in
       if (n <=? length s1) && nat_list_eq common (firstn n s2) then
         rbind (reshape_spec [None; Some csize] A) (fun A2 =>
         rbind (reshape_spec [Some csize; None] B) (fun B2 =>
@@ -243,9 +243,18 @@ Fixpoint final_modes_loop (is_ : list nat) (m1 b1 : list nat) (nb bc fc : nat) :
       else if memb i b1 then bc :: final_modes_loop r m1 b1 nb (S bc) fc
       else (fc + nb) :: final_modes_loop r m1 b1 nb bc (S fc)
   end.
+(* batch_order = sorted(range(len(batch_modes1)), key=lambda i: batch_modes1[i]): stable insertion sort of the pairs *)
+Fixpoint insert_pair (x : nat * nat) (l : list (nat * nat)) : list (nat * nat) :=
+  match l with
+  | [] => [x]
+  | y :: r => if fst x <=? fst y then x :: y :: r else y :: insert_pair x r
+  end.
+Definition sort_pairs (l : list (nat * nat)) : list (nat * nat) := fold_right insert_pair [] l.
 Definition tensordot (A B : tensor F) (m1 m2 b1 b2 : list nat) : res (tensor F) :=
   let s1 := shape A in let s2 := shape B in
   if validate_modes s1 s2 m1 m2 && validate_modes s1 s2 b1 b2 then
+    let bp := sort_pairs (combine b1 b2) in
+    let b1 := map fst bp in let b2 := map snd bp in
     let cdim := prod (sel_in m1 s1) in
     let bshape := sel_in b1 s1 in
     let final0 := final_modes_loop (seq 0 (length s1)) m1 b1 (length b1) 0 0 in
